@@ -8,6 +8,7 @@ run *is* its own replay file.
 """
 import hashlib
 import struct
+import sys
 import warnings
 from fractions import Fraction
 
@@ -507,6 +508,7 @@ class Interp:
             warnings.simplefilter('always')
             with np.errstate(all='ignore'):
                 pol0 = process_policy()
+                nmod0 = len(sys.modules)
                 try:
                     val = fn(self.L, *args, **kw)
                     out = Outcome(True, val, None, tuple(type(w.message).__name__ for w in wl))
@@ -516,8 +518,14 @@ class Interp:
                     out = Outcome(False, None, e, tuple(type(w.message).__name__ for w in wl))
                 pol1 = process_policy()
                 if pol1 != pol0:
-                    out.policy_changed = [n for n, a, b in zip(('numpy error policy', 'numpy print options', 'warnings filters', 'warnings filters',
-                                                                 'recursion limit', 'environment'), pol0, pol1) if a != b][0]
+                    changed = [n for n, a, b in zip(('numpy error policy', 'numpy print options', 'warnings filters', 'warnings filters',
+                                                     'recursion limit', 'environment'), pol0, pol1) if a != b]
+                    if nmod0 != len(sys.modules):
+                        # a module imported lazily during the call may register warnings filters of its own at import time: that is
+                        # the interpreter's one-off business, not state the call leaves behind
+                        changed = [n for n in changed if n != 'warnings filters']
+                    if changed:
+                        out.policy_changed = changed[0]
                 return out
 
     def step(self, i, ev):
